@@ -196,7 +196,8 @@ def report(chk: Check, case, origin, model=True):
         idx, msg = verdict
         replay = {"case": small, "trace": [{"op": t["line"], "impl": t["impl"], "model": (answers[i] if answers and not t.get("crash") else None),
                                             "now_ticks": t["now"]} for i, t in enumerate(trace)],
-                  "executions": log, "failing_step": idx, "origin": origin, "replay_cmd": "./check C02 --replay <this file>"}
+                  "executions": log, "failing_step": idx, "origin": origin, "as_python": describe_case(small),
+                  "replay_cmd": "./check C02 --replay <this file>"}
         what = "basic cache decorator" if small["kind"] == "simple" else "iterator decorator"
         chk.violation(f"{what} contradicts the property at step {idx} `{trace[idx]['line']}` (virtual t={trace[idx]['now']} ticks): {msg} "
                       f"[condition {small['cond']}, ttl {describe_ttl(small['ttl'])}]",
@@ -207,7 +208,7 @@ def report(chk: Check, case, origin, model=True):
         verdict, dm, trace, log, answers = judge(small, True)
         replay = {"case": small, "trace": [{"op": t["line"], "impl": t["impl"], "model": answers[i], "now_ticks": t["now"]}
                                            for i, t in enumerate(trace)],
-                  "executions": log, "failing_step": dm, "origin": origin,
+                  "executions": log, "failing_step": dm, "origin": origin, "as_python": describe_case(small),
                   "broken": "correspondence of Model/Decor/%s.lean with cashews/decorators/cache/%s.py" % (
                       ("Simple", "simple") if small["kind"] == "simple" else ("Iterator", "iterator")),
                   "replay_cmd": "./check C02 --replay <this file>"}
@@ -215,6 +216,49 @@ def report(chk: Check, case, origin, model=True):
                       f"{answers[dm]} - but the observed behaviour still satisfies the property statement", replay, signature=None, no_input=True)
         return True
     return False
+
+
+def describe_case(case) -> list[str]:
+    """the case as the Python a reader would write (for replay files)"""
+    simple = case["kind"] == "simple"
+    cond = case["cond"]
+    names = {"all": "None", "nn": "NOT_NONE"}
+    if cond in names:
+        ctext = "condition=" + names[cond]
+    elif cond[:3] in ("we:", "oe:"):
+        ctext = "condition=%s(%s)" % ("with_exceptions" if cond[0] == "w" else "only_exceptions",
+                                      ", ".join("E" + x for x in cond[3:].split("+") if x))
+    elif cond.startswith("tc:"):
+        ctext = f"time_condition={int(cond[3:]) / 8}"
+    else:
+        ctext = ("condition=<callable answering, for a payload / None / a falsy value / E0 / E1 / E2: %s>  "
+                 "(T=True F=False y=truthy non-bool z=falsy non-bool X=the exception itself)" % " ".join(cond[3:]))
+    out = ["cache.setup('mem://'%s)" % (", secret=..." if case["config"] == "secret" else ""),
+           "@cache.%s(ttl=%s, key=%r, %s%s)" % ("cache" if simple else "iterator", describe_ttl(case["ttl"]), case.get("keytpl"), ctext,
+                                             (", prefix=%r, protected=%r" % (case.get("prefix", ""), case.get("protected", False))) if simple else ""),
+           "async def f(%s): ..." % ("a, b=0" if case["sig"] == "ab" else "a, *, b=0")]
+    for n, b in enumerate(case["script"]):
+        if simple:
+            k, d = dh.parse_beh(b)
+            what = {"v": f"returns 'v{n}'", "n": "returns None"}.get(k) or (f"returns {dh.FALSY[int(k[1:])]!r}" if k[0] == "f" else f"raises E{k[1:]}({n})")
+            out.append(f"  execution {n}: takes {d / 8} s, {what}")
+        else:
+            steps, fd = dh.parse_run(b)
+            parts = []
+            for i, (k, d) in enumerate(steps):
+                what = {"v": f"yield 'v{n}.{i}'", "n": "yield None"}.get(k) or (f"yield {dh.FALSY[int(k[1:])]!r}" if k[0] == "f" else f"raise E{k[1:]}({n})")
+                parts.append((f"<{d / 8} s> " if d else "") + what)
+            out.append(f"  run {n}: " + "; ".join(parts) + (f"; <{fd / 8} s>" if fd else "") + ("" if parts else " (yields nothing)"))
+    for op in case["ops"]:
+        if op[0] == "adv":
+            out.append(f"<{op[1] / 8} s pass>")
+        else:
+            a, b = dh.ARGS[op[1]]
+            fs = dh.forms(case["sig"], a, b)
+            args, kwargs = fs[op[2] % len(fs)]
+            call = ", ".join([repr(x) for x in args] + [f"{k}={v!r}" for k, v in kwargs.items()])
+            out.append(("await f(%s)" if simple else "[x async for x in f(%s)]") % call)
+    return out
 
 
 def describe_ttl(ttl: str) -> str:
@@ -440,8 +484,8 @@ def run(chk: Check) -> int:
         found += 1
 
     # 2. call histories
-    n_simple = chk.budget(9000, 60000)
-    n_iter = chk.budget(7000, 45000)
+    n_simple = chk.budget(6000, 60000)
+    n_iter = chk.budget(5000, 45000)
     cases = [("corpus:" + name, c) for name, c in corpus_cases()]
     ncorpus = len(cases)
     for i in range(max(n_simple, n_iter)):
